@@ -39,12 +39,15 @@ func (a memAddr) Network() string { return "tcp" }
 //go:norace
 func (a memAddr) String() string  { return string(a) }
 
+type pipeID struct{ _ int }
+
 type queue struct {
 	segs   [][]byte
 	closed bool // writer side closed: EOF after draining
 }
 
 type MemConn struct {
+	pipe          *pipeID // identity shared by both ends: operations on either end do not commute
 	in, out       *queue
 	local, remote memAddr
 	closed        bool
@@ -56,7 +59,7 @@ func (c *MemConn) readable() bool { return c.closed || len(c.in.segs) > 0 || c.i
 
 //go:norace
 func (c *MemConn) Read(p []byte) (int, error) {
-	rt.Point(rt.OpIO, c, c.readable)
+	rt.Point(rt.OpIO, c.pipe, c.readable)
 	if c.closed {
 		return 0, &realnet.OpError{Op: "read", Net: "tcp", Err: ErrClosed}
 	}
@@ -95,7 +98,7 @@ func (c *MemConn) IsClosed() bool   { return c.closed }
 
 //go:norace
 func (c *MemConn) Write(p []byte) (int, error) {
-	rt.Point(rt.OpIO, c, nil)
+	rt.Point(rt.OpIO, c.pipe, nil)
 	if c.closed {
 		return 0, &realnet.OpError{Op: "write", Net: "tcp", Err: ErrClosed}
 	}
@@ -113,7 +116,7 @@ func (c *MemConn) Write(p []byte) (int, error) {
 
 //go:norace
 func (c *MemConn) Close() error {
-	rt.Point(rt.OpIO, c, nil)
+	rt.Point(rt.OpIO, c.pipe, nil)
 	if c.closed {
 		return &realnet.OpError{Op: "close", Net: "tcp", Err: ErrClosed}
 	}
@@ -139,8 +142,9 @@ func (c *MemConn) SetWriteDeadline(t time.Time) error { return nil }
 //go:norace
 func Pipe(serverAddr, clientAddr string) (*MemConn, *MemConn) {
 	a, b := &queue{}, &queue{}
-	srv := &MemConn{in: a, out: b, local: memAddr(serverAddr), remote: memAddr(clientAddr)}
-	cli := &MemConn{in: b, out: a, local: memAddr(clientAddr), remote: memAddr(serverAddr)}
+	id := &pipeID{}
+	srv := &MemConn{pipe: id, in: a, out: b, local: memAddr(serverAddr), remote: memAddr(clientAddr)}
+	cli := &MemConn{pipe: id, in: b, out: a, local: memAddr(clientAddr), remote: memAddr(serverAddr)}
 	return srv, cli
 }
 
@@ -165,7 +169,7 @@ func PortBound(port int) bool { _, ok := ports[port]; return ok }
 
 //go:norace
 func Listen(network, address string) (Listener, error) {
-	rt.Point(rt.OpIO, nil, nil)
+	rt.Point(rt.OpIO, rt.NetGlobal, nil)
 	i := strings.LastIndex(address, ":")
 	if i < 0 {
 		return nil, fmt.Errorf("listen %s: missing port", address)
@@ -201,6 +205,10 @@ func (l *MemListener) Accept() (Conn, error) {
 //go:norace
 func (l *MemListener) Close() error {
 	rt.Point(rt.OpIO, l, nil)
+	rt.Touch(rt.NetGlobal)
+	for _, c := range l.pending {
+		rt.Touch(c.pipe)
+	}
 	if l.closed {
 		return &realnet.OpError{Op: "close", Net: "tcp", Err: ErrClosed}
 	}
@@ -225,8 +233,11 @@ func (l *MemListener) Addr() Addr { return l.addr }
 // DialMem connects to the in-memory listener on port; the returned Conn is the client end.
 //go:norace
 func DialMem(port int) (*MemConn, error) {
-	rt.Point(rt.OpIO, nil, nil)
+	rt.Point(rt.OpIO, rt.NetGlobal, nil)
 	l, ok := ports[port]
+	if ok {
+		rt.Touch(l)
+	}
 	if !ok || l.closed {
 		return nil, &realnet.OpError{Op: "dial", Net: "tcp", Err: errors.New("connection refused")}
 	}
